@@ -61,10 +61,53 @@ func sSeq(a, b string) string {
 
 func sAct(n string) string { return "(.act " + leanStr(n) + ")" }
 
+// isAcquire: `x := acquireLock(...)` / `x = acquireLock(...)`
+func isAcquire(s ast.Stmt) bool {
+	a, ok := s.(*ast.AssignStmt)
+	if !ok || len(a.Rhs) != 1 {
+		return false
+	}
+	c, ok := a.Rhs[0].(*ast.CallExpr)
+	if !ok {
+		return false
+	}
+	id, ok := c.Fun.(*ast.Ident)
+	return ok && id.Name == "acquireLock"
+}
+
+func isErrNotNil(e ast.Expr) bool {
+	be, ok := e.(*ast.BinaryExpr)
+	if !ok || be.Op != token.NEQ {
+		return false
+	}
+	x, ok1 := be.X.(*ast.Ident)
+	y, ok2 := be.Y.(*ast.Ident)
+	return ok1 && ok2 && y.Name == "nil" && (x.Name == "err" || strings.HasSuffix(strings.ToLower(x.Name), "err"))
+}
+
 func (b *skb) block(stmts []ast.Stmt) string {
+	// statements are translated front to back (closures must be registered before use),
+	// then folded into a right-nested sequence
+	var parts []string
+	for i := 0; i < len(stmts); i++ {
+		// idiom (a): err = acquireLock(..) ; if err != nil { fail }
+		if isAcquire(stmts[i]) && i+1 < len(stmts) {
+			if ifs, ok := stmts[i+1].(*ast.IfStmt); ok && ifs.Init == nil && ifs.Else == nil && isErrNotNil(ifs.Cond) {
+				parts = append(parts, "(.acq "+b.block(ifs.Body.List)+")")
+				i++
+				continue
+			}
+		}
+		// idiom (b): if err := acquireLock(..); err != nil { fail }
+		if ifs, ok := stmts[i].(*ast.IfStmt); ok && ifs.Init != nil && ifs.Else == nil && isAcquire(ifs.Init) && isErrNotNil(ifs.Cond) {
+			parts = append(parts, "(.acq "+b.block(ifs.Body.List)+")")
+			continue
+		}
+		parts = append(parts, b.stmt(stmts[i]))
+	}
 	r := ".skip"
-	for i := len(stmts) - 1; i >= 0; i-- {
-		r = sSeq(b.stmt(stmts[i]), r)
+	for i := len(parts) - 1; i >= 0; i-- {
+		r = sSeq(parts[i], r)
 	}
 	return r
 }
@@ -341,5 +384,24 @@ func (p *pkgInfo) callersOf(callee string) []string {
 			out = append(out, k)
 		}
 	}
+	return out
+}
+
+// first argument (as source text) of the first call to `callee` inside function `fn`
+func (p *pkgInfo) firstArgOfCall(fn, callee string) string {
+	fd := p.funcs[fn]
+	out := "<missing>"
+	if fd == nil || fd.Body == nil {
+		miss("function " + fn)
+		return out
+	}
+	done := false
+	ast.Inspect(fd.Body, func(n ast.Node) bool {
+		if c, ok := n.(*ast.CallExpr); ok && !done && types.ExprString(c.Fun) == callee && len(c.Args) > 0 {
+			out = strings.Join(strings.Fields(types.ExprString(c.Args[0])), " ")
+			done = true
+		}
+		return !done
+	})
 	return out
 }
